@@ -239,6 +239,13 @@ func MakeException(r interface{}) *Exception {
 	case string:
 		return exceptionNew(SystemError, Tuple{String(x)})
 	default:
+		if _, ok := r.(Object); ok {
+			// raise <a python object which is not an exception>: its go
+			// representation is nothing to show (and fmt would
+			// follow it for ever if it reaches a dict which
+			// contains itself)
+			return ExceptionNewf(TypeError, "exceptions must derive from BaseException")
+		}
 		return exceptionNew(SystemError, Tuple{String(fmt.Sprintf("Unknown error %#v", r))})
 	}
 }
